@@ -49,13 +49,37 @@ POSITIONAL = ["textDocument/codeAction", "textDocument/hover", "textDocument/def
               "textDocument/documentHighlight"]
 
 
+# what a real client announces: a server that starts asking the client (workspace/configuration, registerCapability, progress)
+# because of these must still answer every pipelined request of the client
+CLIENT_CAPS = {
+    "workspace": {"configuration": True, "workspaceFolders": True, "applyEdit": True, "didChangeConfiguration": {"dynamicRegistration": True},
+                  "didChangeWatchedFiles": {"dynamicRegistration": True}, "symbol": {"dynamicRegistration": True}},
+    "window": {"workDoneProgress": True, "showMessage": {"messageActionItem": {"additionalPropertiesSupport": True}}, "showDocument": {"support": True}},
+    "textDocument": {"synchronization": {"dynamicRegistration": True, "willSave": True, "didSave": True},
+                     "publishDiagnostics": {"relatedInformation": True, "versionSupport": True},
+                     "completion": {"dynamicRegistration": True, "completionItem": {"snippetSupport": True}},
+                     "hover": {"contentFormat": ["markdown", "plaintext"]}, "signatureHelp": {"dynamicRegistration": True}},
+    "general": {"positionEncodings": ["utf-16"]},
+}
+
+
+def initialize_messages(rng, root):
+    """the opening of a session: bare (rootPath only), or as an editor sends it (capabilities, then `initialized`)"""
+    if rng.random() < 0.5:
+        return [{"jsonrpc": "2.0", "id": 0, "method": "initialize", "params": {"rootPath": root}}]
+    return [{"jsonrpc": "2.0", "id": 0, "method": "initialize",
+             "params": {"processId": None, "rootPath": root, "rootUri": impl.uri(root), "capabilities": CLIENT_CAPS, "trace": "off",
+                        "workspaceFolders": [{"uri": impl.uri(root), "name": "ws"}], "initializationOptions": {}}},
+            {"jsonrpc": "2.0", "method": "initialized", "params": {}}]
+
+
 def gen_sweep(rng, files):
     """open one file, then one positional method on every line (the answers of most handlers
     depend on where in which construct the cursor is)."""
     f = rng.choice(files)
     u = impl.uri(f[0])
     method = rng.choice(POSITIONAL)
-    msgs = [{"jsonrpc": "2.0", "id": 0, "method": "initialize", "params": {"rootPath": os.path.dirname(files[0][0])}},
+    msgs = initialize_messages(rng, os.path.dirname(files[0][0])) + [
             {"jsonrpc": "2.0", "method": "textDocument/didOpen", "params": {"textDocument": {"uri": u}}}]
     for line in range(f[1]):
         ch = rng.choice([0, 2, 5, 9, 14])
@@ -136,7 +160,7 @@ def gen_sequence(rng, files):
     if rng.random() < 0.2:
         return gen_sweep(rng, files)
     n = rng.choice([3, 6, 10, 16, 25, 40])
-    msgs = [{"jsonrpc": "2.0", "id": 0, "method": "initialize", "params": {"rootPath": os.path.dirname(files[0][0])}}]
+    msgs = initialize_messages(rng, os.path.dirname(files[0][0]))
     exit_at = rng.randrange(2, n + 8) if rng.random() < 0.5 else None
     next_id = 1
     for i in range(n):
@@ -451,6 +475,9 @@ def run(ctx):
             class _R:  # deterministic chooser: this file, codeAction
                 def choice(self, xs, _f=f):
                     return _f if xs is files else ("textDocument/codeAction" if xs is POSITIONAL else xs[0])
+
+                def random(self):
+                    return 0.0
             fixed.append(gen_sweep(_R(), files))
         for k in range(n):
             msgs = fixed[k] if k < len(fixed) else gen_sequence(ctx.rng, files)
